@@ -41,6 +41,21 @@ def run(ctx, which="cauchy"):
     ctx.add_counts(evaluations=total, distinct_nontrivial=nontrivial)
     ctx.cov["verdicts"] = verdicts
     ctx.cov["exhaustive"] = True
+    # code -> spec: the kernel calls intercepted in real runs (n <= 10, 0..maxcor pairs), judged by DriverTrace on facts
+    # computed from the real arrays and an independent dense model (feasibility, resting variables unmoved, model
+    # non-increase, first local minimiser / truncated Newton point within a conditioning-aware tolerance)
+    import numpy as np
+
+    from harness import corpus, drivercheck, problems
+    rng = np.random.default_rng([ctx.seed, 8 if which == "cauchy" else 9])
+    dspecs = []
+    for _ in range(ctx.pick(300, 3000)):
+        s = corpus.rand_spec(rng, problems.CONVEX + ["rosenbrock", "qpcos", "styblinski_tang", "beale", "osc"], nmax=10,
+                             allow_target=False, allow_cb=False, small_budgets=False)
+        s["kwargs"]["maxiter"] = 40
+        s["box_kinds"] = ["free", "lo", "up", "box", "box", "fix"]
+        dspecs.append(s)
+    drivercheck.run_traces(ctx, dspecs, ("C08_",) if which == "cauchy" else ("C09_",), label=f"kernel-{which}")
     return ctx.finish("model_checking", RULE)
 
 
